@@ -93,6 +93,8 @@ struct ShardOut {
     items: Vec<u32>,
     violations: Vec<ViolRec>,
     stopped_early: bool,
+    #[serde(default)]
+    known_hits: u64,
 }
 
 fn bitmap_bits(total_runs: u64) -> usize {
@@ -115,6 +117,9 @@ pub fn worker<P: Property>(tier: Tier, seed: u64, start: u64, end: u64, total: u
     let mut bits = vec![0u8; nbits / 8];
     let mut cov = Cov::default();
     let mut out = ShardOut::default();
+    let known = load_known();
+    let mut known_seen: Vec<(String, String)> = vec![];
+    let mut new_count = 0usize;
     for run in start..end {
         let _ = status.write_all_at(&run.to_le_bytes(), 0);
         let t = match guarded(|| gen_trace::<P>(seed, run, tier)) {
@@ -132,10 +137,20 @@ pub fn worker<P: Property>(tier: Tier, seed: u64, start: u64, end: u64, total: u
             bits[b >> 3] |= 1 << (b & 7);
         }
         if let Some(v) = o.violation {
-            out.violations.push(ViolRec { run, v });
-            if out.violations.len() >= MAX_VIOL_PER_SHARD {
-                out.stopped_early = true;
-                break;
+            if is_known(&known, P::ID, &v).is_some() {
+                // a listed finding: keep only the first occurrence, never stop the shard for it
+                out.known_hits += 1;
+                if !known_seen.contains(&v.key()) {
+                    known_seen.push(v.key());
+                    out.violations.push(ViolRec { run, v });
+                }
+            } else {
+                out.violations.push(ViolRec { run, v });
+                new_count += 1;
+                if new_count >= MAX_VIOL_PER_SHARD {
+                    out.stopped_early = true;
+                    break;
+                }
             }
         }
     }
@@ -449,8 +464,11 @@ pub fn run_check<P: Property>(tier: Tier) -> i32 {
         for (x, y) in bits.iter_mut().zip(b.iter()) {
             *x |= *y;
         }
+        viol_total += so.known_hits;
         for vr in &so.violations {
-            viol_total += 1;
+            if is_known(&known, P::ID, &vr.v).is_none() {
+                viol_total += 1;
+            }
             let e = found.entry(vr.v.key()).or_insert((vr.run, vr.v.clone(), None));
             if vr.run < e.0 {
                 *e = (vr.run, vr.v.clone(), None);
@@ -480,6 +498,7 @@ pub fn run_check<P: Property>(tier: Tier) -> i32 {
     let mut exit = 0;
     let mut known_lines: Vec<String> = vec![];
     let mut new_viol: Vec<String> = vec![];
+    let mut unreproducible = 0u64;
     for ((_clause, _locus), (run, v, trace_opt)) in &found {
         if let Some(k) = is_known(&known, P::ID, v) {
             known_lines.push(format!("KNOWN-FINDING: property={} {} [{} {}]", P::ID, k.what, v.clause, v.locus));
@@ -498,18 +517,22 @@ pub fn run_check<P: Property>(tier: Tier) -> i32 {
                 let mut dummy = Cov::default();
                 let o = exec_safely::<P>(&t, &mut dummy);
                 match o.violation {
-                    Some(v2) if v2.key() == v.key() => {
+                    // (a violation of another identity on the same trace can happen when the code under
+                    // test keeps state across runs of one process: report what reproduces)
+                    Some(v2) => {
+                        if v2.key() != v.key() {
+                            println!("[{}] note: run {} reported {:?} in its worker and {:?} when re-derived in a fresh context; reporting the latter", P::ID, run, v.key(), v2.key());
+                        }
                         let (ts, vs, n) = shrink::<P>(&t, &v2);
                         (serde_json::to_value(&ts).unwrap(), vs, n)
                     }
-                    other => {
-                        eprintln!(
-                            "HARNESS-ERROR: run {} reported {:?} in the worker but {:?} when re-derived (nondeterminism)",
-                            run,
-                            v,
-                            other.map(|x| x.key())
+                    None => {
+                        println!(
+                            "[{}] note: run {} reported {:?} in its worker but is clean when re-derived: the outcome depends on earlier runs of the same process (state kept across runs by the code under test?); not reported under this identity",
+                            P::ID, run, v.key()
                         );
-                        return 2;
+                        unreproducible += 1;
+                        continue;
                     }
                 }
             }
@@ -539,20 +562,31 @@ pub fn run_check<P: Property>(tier: Tier) -> i32 {
                 println!("  clause={} locus={} step={}\n  detail: {}", vfinal.clause, vfinal.locus, vfinal.step, vfinal.detail);
                 exit = 1;
             }
-            other => {
-                eprintln!(
-                    "HARNESS-ERROR: violation {:?} did not reproduce from {} in a fresh process: {}",
-                    vfinal.key(),
-                    path.display(),
-                    match other {
-                        ReplayOutcome::Violation(v) => format!("got {:?} step {}", v.key(), v.step),
-                        ReplayOutcome::Clean => "clean".into(),
-                        ReplayOutcome::HarnessError(m) => m,
-                    }
-                );
+            ReplayOutcome::Violation(v3) => {
+                // reproduces a violation, but of another identity/step than in this process (state kept
+                // across runs by the code under test): the fresh-process result is the authoritative one
+                let mut rf2 = rf;
+                rf2.violation = v3.clone();
+                std::fs::write(&path, serde_json::to_vec_pretty(&rf2).unwrap()).expect("write replay");
+                println!("[{}] note: fresh-process replay gives {:?} step {} (in-process: {:?} step {}); recorded the fresh-process result", P::ID, v3.key(), v3.step, vfinal.key(), vfinal.step);
+                new_viol.push(format!("VIOLATION property={} replay={}", P::ID, path.display()));
+                println!("  clause={} locus={} step={}\n  detail: {}", v3.clause, v3.locus, v3.step, v3.detail);
+                exit = 1;
+            }
+            ReplayOutcome::Clean => {
+                println!("[{}] note: violation {:?} did not reproduce from {} in a fresh process; not reported", P::ID, vfinal.key(), path.display());
+                let _ = std::fs::remove_file(&path);
+                unreproducible += 1;
+            }
+            ReplayOutcome::HarnessError(m) => {
+                eprintln!("HARNESS-ERROR: replay of {} failed: {}", path.display(), m);
                 return 2;
             }
         }
+    }
+    if unreproducible > 0 && new_viol.is_empty() {
+        eprintln!("HARNESS-ERROR: {} violating run(s) did not reproduce outside their worker process and nothing else was found", unreproducible);
+        return 2;
     }
     known_lines.sort();
     known_lines.dedup();
